@@ -73,6 +73,11 @@ Proof.
   rewrite (mem_false_incl _ _ _ Hm Hi), (rm1_notin _ _ Hno). cbn. split; [|split]; cbn; auto.
   rewrite Nat.add_0_r. exact Hl.
 Qed.
+Lemma good_skip h ow tc n A : mem h ow = false -> good (ow, tc, n) A -> good (ow, tc, n) (rm h A).
+Proof.
+  intros Hm [Hi [Hn Hl]]. cbn in *. split; [|split]; cbn; auto.
+  intros x Hx. apply rm_in; auto. intros ->. apply (mem_false _ _ Hm). exact Hx.
+Qed.
 Lemma subl_incl a b : subl a b = true -> incl a b.
 Proof.
   unfold subl, mem. intros H x Hx. rewrite forallb_forall in H. specialize (H x Hx).
@@ -234,6 +239,12 @@ Proof.
     destruct (IHexec1 _ _ Eb Hin) as [A1 [G1 I1]]. cbn in G1. rewrite G1 in Han.
     destruct (an h A1) as [rh|] eqn:Eh; [|discriminate]. inv Han.
     destruct (IHexec2 _ _ Eh I1) as [A2 [G2 I2]]. destruct o; cbn in *; eauto using oj_r.
+  - (* GuardRun *)
+    destruct (an b A) as [rb|] eqn:Eb; [|discriminate]. inv Han.
+    destruct (IHexec _ _ Eb Hin) as [A1 [G1 I1]]. destruct o; cbn in *; eauto using oj_l.
+  - (* GuardSkip *)
+    destruct (an b A) as [rb|] eqn:Eb; [|discriminate]. inv Han. cbn [get rj rN].
+    eapply oj_r; eauto. eapply good_skip; eauto.
   - (* CallN *)
     destruct (an b A) as [rb|] eqn:Eb; [|discriminate]. inv Han.
     destruct (IHexec _ _ Eb Hin) as [A1 [G1 I1]]. cbn [get rN].
